@@ -26,7 +26,7 @@ from .. import shrinkers
 ID = 'C10'
 LEVEL = 'exploration'
 STEP_CAP = 5_000_000
-GRAPH_EVERY = 8          # run i is a graph run iff i % GRAPH_EVERY == 7
+GRAPH_EVERY = 16         # run i is a graph run iff i % GRAPH_EVERY == 15
 SLICES = 16              # the 65 536 four-node digraphs are cut in 16 slices
 
 TIERS = {
@@ -40,7 +40,7 @@ RULE = ('World run: a workbook of 2-9 (thorough 12) cells on a random cyclic '
         'item order, placement = translation + renaming, file path) in 2 '
         '(quick) / 4 (thorough) PYTHONHASHSEED interpreters; non-trivial: '
         'the world has >= 1 static cycle and >= 2 schedules ran; distinct by '
-        '(world, schedules) digest. Graph run (every 8th): one of 16 slices '
+        '(world, schedules) digest. Graph run (every 16th): one of 16 slices '
         'of all 65 536 digraphs on 4 nodes + all digraphs on <= 3 nodes + 40 '
         'random graphs with 5-9 nodes, each under 3 insertion orders, '
         'simple_cycles vs brute force; counted in stats.graphs_checked.')
